@@ -874,9 +874,10 @@ func (g *gen) sequence(maxOps int, corrupt bool) {
 		if r.Bool(1, 10) {
 			// two updates overlapping in time: the first is parked inside its storage write, the second is issued meanwhile
 			g.bad = false
-			if g.w.run(g.t, "park "+g.update()) == "parked" {
+			first, second := g.update(), g.update() // chosen before parking: choosing reads the manager
+			if g.w.run(g.t, "park "+first) == "parked" {
 				if r.Bool(9, 10) {
-					g.hist["during:"+g.w.run(g.t, "during "+g.update())]++
+					g.hist["during:"+g.w.run(g.t, "during "+second)]++
 				}
 				g.hist["gated-release"]++
 				g.w.run(g.t, "release")
